@@ -1,11 +1,14 @@
 #!/venv/bin/python
-"""Independently confirm candidate seeded changes: in a scratch worktree of /repo HEAD,
-(1) the patch applies, (2) the full test suite passes with it, (3) demo.py fails with it,
-(4) demo.py passes without it.  Worktrees live under /tmp and are removed afterwards.
+"""Confirm candidate breaking changes independently of their authors.
 
-usage: tools/verify_seeds.py <dir> [<dir> ...]      (each dir has patch.diff and demo.py)
+For every directory given (containing patch.diff, demo.py, meta.json) a scratch git worktree of
+/repo HEAD is created under /tmp, the patch is applied, the full pinned test suite is run, the
+demonstration is run with the change (must exit non-zero) and without it (must exit 0), and the
+worktree is removed again.  The result is written to <dir>/confirm.json and summarised on stdout.
+
+usage: tools/verify_seeds.py [-j N] dir ...
 """
-import json, os, shutil, subprocess, sys
+import json, os, subprocess, sys, tempfile, shutil
 from concurrent.futures import ThreadPoolExecutor
 
 PY = "/venv/bin/python"
@@ -16,49 +19,62 @@ def sh(cmd, cwd=None, env=None, timeout=1800):
     return r.returncode, (r.stdout + r.stderr)
 
 
-def verify(d):
+def confirm(d):
     d = os.path.abspath(d)
-    tag = d.strip("/").replace("/", "_")
-    wt = f"/tmp/vs/{tag}"
     res = {"dir": d}
-    os.makedirs("/tmp/vs", exist_ok=True)
-    sh(["git", "-C", "/repo", "worktree", "remove", "--force", wt])
-    rc, out = sh(["git", "-C", "/repo", "worktree", "add", "--detach", wt, "HEAD"])
-    if rc:
-        res["error"] = out[-300:]
-        return res
+    wt = tempfile.mkdtemp(prefix="vseed_")
+    os.rmdir(wt)
+    head = sh(["git", "-C", "/repo", "rev-parse", "--short", "HEAD"])[1].strip()
     try:
-        shutil.copy("/repo/droplets/_version.py", f"{wt}/droplets/_version.py")
-        env = dict(os.environ, PYTHONPATH=wt, MPLBACKEND="Agg", NUMBA_CACHE_DIR=f"{wt}/.numba")
-        rc, out = sh(["git", "apply", os.path.join(d, "patch.diff")], cwd=wt)
-        res["applies"] = rc == 0
+        rc, out = sh(["git", "-C", "/repo", "worktree", "add", "-q", "--detach", wt, "HEAD"])
         if rc:
-            rc, out = sh(["git", "apply", "--3way", os.path.join(d, "patch.diff")], cwd=wt)
-            res["applies_3way"] = rc == 0
-            if rc:
-                res["error"] = out[-300:]
-                return res
-        rc, out = sh([PY, "-m", "pytest", "-q", "-p", "no:cacheprovider", "--timeout=900", "-x"], cwd=wt, env=env)
-        res["tests_pass_with_change"] = rc == 0
-        res["tests_tail"] = out.strip().splitlines()[-1] if out.strip() else ""
-        rc, out = sh([PY, os.path.join(d, "demo.py")], cwd=wt, env=env)
-        res["demo_rc_with_change"] = rc
-        sh(["git", "checkout", "--", "."], cwd=wt)
-        sh(["git", "reset", "-q", "--hard", "HEAD"], cwd=wt)
-        rc, out = sh([PY, os.path.join(d, "demo.py")], cwd=wt, env=env)
-        res["demo_rc_without"] = rc
-        res["confirmed"] = bool(res["tests_pass_with_change"] and res["demo_rc_with_change"] != 0 and res["demo_rc_without"] == 0)
+            res["error"] = "worktree: " + out[-300:]
+            return res
+        env = dict(os.environ, PYTHONPATH=wt, PYTHONDONTWRITEBYTECODE="1", MPLBACKEND="Agg", NUMBA_CACHE_DIR=os.path.join(wt, ".numba"))
+        rc, out = sh(["git", "-C", wt, "apply", os.path.join(d, "patch.diff")])
+        res["patch_applies"] = rc == 0
+        if rc:
+            res["error"] = out[-300:]
+            return res
+        touched = sh(["git", "-C", wt, "diff", "--name-only"])[1].split()
+        res["files"] = touched
+        res["touches_tests"] = any(t.startswith("tests/") for t in touched)
+        rc, out = sh([PY, "-m", "pytest", "-q", "-p", "no:cacheprovider", "--timeout=900"], cwd=wt, env=env)
+        res["tests_rc"] = rc
+        res["tests_with_change"] = out.strip().splitlines()[-1] if out.strip() else ""
+        try:
+            rc, out = sh([PY, os.path.join(d, "demo.py")], cwd=d, env=env, timeout=600)
+        except subprocess.TimeoutExpired:
+            rc, out = -9, "timeout"
+        res["demo_exit_with_change"] = rc
+        res["demo_tail_with"] = out.strip()[-400:]
+        sh(["git", "-C", wt, "checkout", "--", "."])
+        try:
+            rc, out = sh([PY, os.path.join(d, "demo.py")], cwd=d, env=env, timeout=600)
+        except subprocess.TimeoutExpired:
+            rc, out = -9, "timeout"
+        res["demo_exit_without"] = rc
+        res["demo_tail_without"] = out.strip()[-400:]
+        res["head"] = head
+        res["ok"] = bool(res["patch_applies"] and res["tests_rc"] == 0 and res["demo_exit_with_change"] != 0
+                         and res["demo_exit_without"] == 0 and not res["touches_tests"])
+        return res
     finally:
         sh(["git", "-C", "/repo", "worktree", "remove", "--force", wt])
         shutil.rmtree(wt, ignore_errors=True)
-    return res
+        json.dump(res, open(os.path.join(d, "confirm.json"), "w"), indent=1)
+
+
+def main():
+    args = sys.argv[1:]
+    j = 4
+    if args and args[0] == "-j":
+        j = int(args[1]); args = args[2:]
+    with ThreadPoolExecutor(j) as ex:
+        for res in ex.map(confirm, args):
+            print(("OK   " if res.get("ok") else "FAIL ") + res["dir"], {k: res.get(k) for k in
+                  ("patch_applies", "tests_with_change", "demo_exit_with_change", "demo_exit_without", "error") if k in res})
 
 
 if __name__ == "__main__":
-    dirs = sys.argv[1:]
-    with ThreadPoolExecutor(8) as ex:
-        out = list(ex.map(verify, dirs))
-    for r in out:
-        print(json.dumps(r))
-    json.dump(out, open("/tmp/vs_result.json", "w"), indent=1)
-    sh(["git", "-C", "/repo", "worktree", "prune"])
+    main()
